@@ -792,7 +792,7 @@ def tamper_bundle(sc, base, target, ver, data, rng, out, n):
         tamper_exact(sc, base, target, ver, data, pos, new, out)
 
 
-TAMPER_TIMEOUT = 60
+TAMPER_TIMEOUT = 40
 
 
 def _tamper_child(sc, base, target, ver, mutated):
@@ -874,6 +874,8 @@ def tamper_exact(sc, base, target, ver, data, pos, new, out):
                 f.write(mutated)
         except OSError:
             keep = "(not saved)"
+        # a damaged bz2 stream that simply ends (no error from the decompressor) leaves the container reader
+        # of bzrformats with a short file, on which it spins for ever
         fam = "tampered-v4-bundle-container-reader-does-not-terminate" if ver == "4" else None
         out["viol"].append((case, "reading / installing a v%s bundle with byte %d changed from %#x to %#x does not "
                                   "terminate within %d s (mutated bundle saved as %s)" % (ver, pos, old, new, TAMPER_TIMEOUT, keep), fam))
@@ -1038,13 +1040,17 @@ def run_scenario(args):
         signal.alarm(300 if args[1] == "quick" else 1200)
     except ValueError:        # not in the main thread of the worker
         pass
+    cwd = os.getcwd()
     try:
+        # the 0.8/0.9 reader drops a `,,bogus-inv` file into the current directory on an inventory mismatch
+        os.chdir(env.scratch())
         return _run_scenario(args)
     except BaseException as e:
         if isinstance(e, (KeyboardInterrupt, SystemExit)):
             raise
         return dict(viol=[], t2=[], count={}, cases=[], crash="scenario %r: %s" % (args, traceback.format_exc()[-1500:]))
     finally:
+        os.chdir(cwd)
         try:
             signal.alarm(0)
         except ValueError:
@@ -1081,7 +1087,7 @@ def _run_scenario(args):
             kind = "ancestor" if (b == NULL or b in anc) else ("descendant" if t in src_ancestry(src, b) else "sibling")
             pairs.append((b, t, kind))
     rng.shuffle(pairs)
-    quota = dict(ancestor=4, sibling=2, descendant=1) if tier == "quick" else dict(ancestor=12, sibling=5, descendant=2)
+    quota = dict(ancestor=3, sibling=1, descendant=1) if tier == "quick" else dict(ancestor=12, sibling=5, descendant=2)
     chosen = []
     for b, t, kind in pairs:
         if quota[kind] > 0:
@@ -1496,6 +1502,7 @@ def widen(ctx):
 
 def replay(ctx, case):
     import collections
+    os.chdir(env.scratch())
     out = dict(viol=[], t2=[], count=collections.Counter(), cases=[])
     if "norm" in case:
         b = case["norm"].encode()
